@@ -82,6 +82,20 @@ pub fn neighbours(ctx: &Ctx) {
     }
 }
 
+/// many images: 255 / 256 / 257 / 300 images in one file, every payload unique, kinds and masks
+/// rotating; each descriptor must lead to its own data
+pub fn many(ctx: &Ctx) {
+    let n = [255usize, 256, 257, 300][ctx.pick("images", 4)];
+    let ops: Vec<Op> = (0..n).map(|i| Op::Image(image(i % 5, i % 3 == 0, 1 + i % 7, 5000 + i as u64))).collect();
+    let p = Program { guid: "g".into(), ops, ..Default::default() };
+    ctx.describe(|| format!("{n} images (kinds rotating, mask on every third, payload 1..7 bytes)"));
+    let Some(w) = write_valid(ctx, &p, P) else { return };
+    if read_and_compare(ctx, &p, &w, P, None).is_some() {
+        ctx.observe_u64(explore::fnv(&w.bytes));
+        ctx.nontrivial();
+    }
+}
+
 /// descriptor tampering: for any descriptor the reader returns Err or exactly `length` bytes equal
 /// to the logical bytes that follow the 16-byte section header at `offset`
 pub fn tamper(ctx: &Ctx) {
